@@ -17,6 +17,27 @@ CHECKS = {
         "note": TRUST,
         "technique": "TLA+ abstract machine (TshDyn) + TLC trace validation of real transpile-and-run observations",
     },
+    "C02": {
+        "text": "TLC enumerates spec/FamC02.tla (every legal assignment of names to the roles global-before/parameter/local of two functions/global-after, "
+                "all arities and call shapes, in-place global updates by every assignment form, simultaneous and re-entrant multi-assignments, nested calls) "
+                "and validates each recorded Bash run against TshDyn's CallEnter/Return/AssignIn rules; FrameIsolation is an action property checked on every transition.",
+        "note": TRUST,
+        "technique": "TLA+ abstract machine (frames, globals) + TLC trace validation of real transpile-and-run observations",
+    },
+    "C03": {
+        "text": "TLC enumerates spec/FamC03.tla (all in-range (a,b) subscripts per string length, growth for every (length, index, element type) incl. two-digit "
+                "values, all two-step aliasing histories over three slice variables, copy for all length pairs) and validates each recorded Bash run against "
+                "TshDyn's slice heap (SliceNew, SetIdxApply, ApplyCopy, ApplyIndex, ApplySubstr); RefsValid is checked in every state.",
+        "note": TRUST,
+        "technique": "TLA+ abstract machine (slice heap with references) + TLC trace validation of real transpile-and-run observations",
+    },
+    "C04": {
+        "text": "Every operand position of every statement kind is filled with an effectful probe so that stdout is the evaluation log; TLC enumerates "
+                "spec/FamC04.tla and validates each recorded log against the eager, left-to-right, evaluate-once rules of TshDyn "
+                "(ExprPushOperands, IfEvalAllConds, LoopHead).",
+        "note": TRUST + " A plain variable read is not an effect (ordering of reads against later callee writes is unspecified, as in Go).",
+        "technique": "effect-probe families enumerated by TLC + trace validation of the evaluation log against the TLA+ machine",
+    },
 }
 
 NOT_APPLICABLE = {}
